@@ -918,7 +918,12 @@ async fn input_processing(
             .enumerate()
         {
             if let Some(mask_other) = mask_other {
-                if masked_input.is_some() {
+                // a party may only announce the masked value of one of its own input wires
+                let own_wire = matches!(
+                    circ.insts.get(w).map(|inst| inst.op),
+                    Some(Op::Input(Input { party, .. })) if party as usize == p
+                );
+                if masked_input.is_some() || !own_wire {
                     return Err(MpcError::ConflictingInputMask(w).into());
                 }
                 *masked_input = Some(*mask_other);
